@@ -474,6 +474,19 @@ pub fn beyond_small_scope() -> Vec<String> {
         out.push(format!("A B\ndeclare V = {e};\n0 0\n"));
         out.push(format!("A B\nloop(i,2)\nrepeat(2) ({e}) (i)\nend loop\n"));
     }
+    // (i) number literals running into decimal digits of other scripts (and other digit-like characters)
+    for d in ['\u{ff12}', '\u{0663}', '\u{096a}', '\u{00b2}', '\u{2460}', '\u{1d7d8}'] {
+        for lit in ["1", "12", "0", "0x1", "0b1", "07"] {
+            out.push(format!("A B\n{lit}{d} 0\n"));
+            out.push(format!("A B\n({lit}{d}) 0\n"));
+            out.push(format!("A B\nbits({lit}{d}, 1) 0\n"));
+            out.push(format!("A B\nrepeat({lit}{d}) 0 0\n"));
+            out.push(format!("A B\nlet x = {lit}{d};\n0 0\n"));
+            out.push(format!("A B\nloop(i, {lit}{d})\n0 0\nend loop\n"));
+            out.push(format!("A B\ndeclare V = {lit}{d} + 1;\n0 0\n"));
+            out.push(format!("A B\n0 {d}{lit}\n"));
+        }
+    }
     // (g) a header that is not followed by a line break, with carriage returns around it
     for h in ["A B", "A B\r", "\r\nA B", "\nA B", "A\rB", "A B \r", " A B", "A B\t", "A B # c", "\r\n\r\nA B\r", "A B\r\r", "A", "A\r"] {
         out.push(h.to_string());
